@@ -230,15 +230,15 @@ pub fn exhaustive(ctx: &Ctx, mode: PpMode) -> Frag {
 }
 
 #[derive(Clone, Debug)]
-struct PpCase {
-    needle: Vec<u8>,
-    i1: usize,
-    i2: usize,
-    hay: Vec<u8>,
-    kind: u8,
+pub struct PpCase {
+    pub needle: Vec<u8>,
+    pub i1: usize,
+    pub i2: usize,
+    pub hay: Vec<u8>,
+    pub kind: u8,
 }
 
-fn pp_case() -> impl Strategy<Value = PpCase> {
+pub fn pp_case() -> impl Strategy<Value = PpCase> {
     let nlen = prop_oneof![
         4 => 2usize..=8,
         4 => 2usize..=40,
